@@ -317,7 +317,8 @@ theorem nodup_keys_ensemble (p : Pot S) (hens : p.ensAxis = true) (n np : Nat) (
   · refine List.Pairwise.imp (fun {a b} hne => ?_) (List.nodup_range' (s := 0) (n := n))
     simp only [Function.onFun, List.disjoint_left, List.mem_map, not_exists, not_and]
     rintro x ⟨e, _, rfl⟩ e' _ h
-    simp only [measurementIndex, hens, if_true, List.cons_append, List.nil_append, List.cons.injEq] at h
+    simp only [measurementIndex, iNoEns, hens, Bool.not_true, Bool.false_eq_true, if_false, List.cons_append, List.nil_append,
+      List.cons.injEq] at h
     exact hne h.1.symm
 
 
